@@ -353,6 +353,7 @@ COVERAGE_SPEC = {
               ("rebuild", r"Constructor::rebuild$"), ("arity", r"Constructor::arity$"), ("from_typed", r"MatrixPattern::from_typed$"),
               ("validate_match", r"::validate_match$"), ("validate_comatch", r"::validate_comatch$"),
               ("validate_pattern_matrix", r"::validate_pattern_matrix$"), ("validate_computation", r"::validate_computation$"),
+              ("validate_value", r"::validate_value$"), ("validate_binder", r"::validate_binder$"), ("missing_patterns", r"::missing_patterns$"),
               ("is_empty", r"::is_empty$"), ("len", r"::len$"), ("truncate", r"::truncate$"), ("take", r"::take$"), ("skip", r"::skip$"),
               ("first", r"::first$"), ("next", r"::next$"), ("filter_map", r"::filter_map$"), ("flat_map", r"::flat_map$"),
               ("chain", r"::chain$"), ("once", r"sources::once::once$"), ("then_some", r"::then_some$"), ("then", r"bool>::then$|::then$"),
@@ -374,6 +375,9 @@ GOLDEN["golden_coverage.json"] = (COVERAGE_SPEC, [
     ("CoverageChecker::validate_match", _CV + "CoverageChecker::<'a>::validate_match", "seqwhole"),
     ("CoverageChecker::validate_pattern_matrix", _CV + "CoverageChecker::<'a>::validate_pattern_matrix", "seqwhole"),
     ("CoverageChecker::validate_comatch", _CV + "CoverageChecker::<'a>::validate_comatch", "seqwhole"),
+    ("CoverageChecker::validate_value", _CV + "CoverageChecker::<'a>::validate_value", "seqwhole"),
+    ("CoverageChecker::validate_binder", _CV + "CoverageChecker::<'a>::validate_binder", "seqwhole"),
+    ("CoverageChecker::missing_patterns", _CV + "CoverageChecker::<'a>::missing_patterns", "seqwhole"),
     ("MatrixPattern::from_typed", _CV + "MatrixPattern::from_typed", "seq"),
     ("MatrixPattern::head_space", _CV + "MatrixPattern::head_space", "seq"),
     ("HeadSpace::constructors", _CV + "HeadSpace::constructors", "seq"),
@@ -386,18 +390,25 @@ GOLDEN["golden_coverage.json"] = (COVERAGE_SPEC, [
 ])
 
 
-def extract_armexpr(facts, fn):
-    """arm -> [canonical S-expression of the arm's value] (for functional tables such as free-variable equations)"""
+def extract_armexpr(facts, fn, scrut_ty=None):
+    """arm -> [canonical S-expression of the arm's value] (for functional tables such as free-variable equations).
+    scrut_ty: regex on the scrutinee type selecting the dispatch match (default: the first match of the body)."""
     h = facts.hir(fn)
     if h is None:
         return None
-    m = A.find_match_on(h["body"], lambda n: True)
+    m = A.find_match_on(h["body"], (lambda n: re.search(scrut_ty, H.strip_refs((n["scrut"].get("ty") or "")))) if scrut_ty else (lambda n: True))
     if m is None:
         return None
     table = {}
+    outer = A.ArmEnv()
+    outer.strip = True
+    outer.bind_params(h)
+    if scrut_ty:
+        outer.absorb(h["body"])
     for a in m["arms"]:
         env = A.ArmEnv()
         env.strip = True
+        env.names = dict(outer.names)
         env.bind_params(h)
         env.bind_pat(A.strip_or(a["pat"]))
         env.absorb(a["body"])
@@ -419,6 +430,32 @@ GOLDEN["golden_freevars.json"] = ({}, [
     ("sps_low FreeVars for ValueId", "<zydeco_stackir::sps_low::syntax::ValueId as %sFreeVars>::free_vars" % _LV, "armexpr"),
     ("sps_low FreeVars for StackId", "<zydeco_stackir::sps_low::syntax::StackId as %sFreeVars>::free_vars" % _LV, "armexpr"),
     ("sps_low FreeVars for CompuId", "<zydeco_stackir::sps_low::syntax::CompuId as %sFreeVars>::free_vars" % _LV, "armexpr"),
+])
+
+
+_NZ = "zydeco_statics::normalize::"
+NORMALIZE_SPEC = {
+    "calls": [("normalize", r"TypeId>::normalize$|TypeId::normalize$|normalize::<impl .*TypeId>::normalize$"),
+              ("normalize_components", r"::normalize_components$"), ("materialize", r"::materialize$"),
+              ("from_root", r"::from_root$"), ("with_application", r"::with_application$"), ("fuse", r"::fuse_nested_abstractions$"),
+              ("normalize_app", r"::normalize_app$"), ("bind_argument", r"::bind_argument$"), ("subst_abst", r"::subst_abst$"),
+              ("subst_absts", r"::subst_absts$"), ("alloc", r"alloc::Alloc<.*>>::alloc$|Alloc>::alloc$|Alloc::alloc$"), ("type_kind", r"::type_kind$"),
+              ("type_filled", r"::type_filled$"), ("kind_filled", r"::kind_filled$"), ("lub", r"Lub>::lub$|Lub::lub$"),
+              ("err", r"Tycker::<'\w+>::err$|::err$"), ("push", r"Vec::<T, A>::push$"), ("reverse", r"::reverse$"),
+              ("last_mut", r"::last_mut$"), ("fold", r"::try_fold$|::fold$"), ("map", r"Iterator::map$"), ("collect", r"::collect$")],
+    "ctors": [], "assign": [r"original", r"function", r"body"], "branch_ifs": True, "branch_matches": True, "returns": True,
+    "values": True,
+}
+GOLDEN["golden_normalize.json"] = (NORMALIZE_SPEC, [
+    ("TypeId::normalize", _NZ + "<impl zydeco_statics::syntax::TypeId>::normalize", r"armexpr:syntax::Type$"),
+    ("Spine::with_application", _NZ + "TypeApplicationSpine::with_application", "seqwhole"),
+    ("Spine::from_root", _NZ + "TypeApplicationSpine::from_root", "seqwhole"),
+    ("Spine::normalize_components", _NZ + "TypeApplicationSpine::normalize_components", "bodyexpr"),
+    ("Spine::materialize", _NZ + "TypeApplicationSpine::materialize", "seqwhole"),
+    ("Spine::fuse_nested_abstractions", _NZ + "TypeApplicationSpine::fuse_nested_abstractions", "seqwhole"),
+    ("TypeId::normalize_app", _NZ + "<impl zydeco_statics::syntax::TypeId>::normalize_app", "bodyexpr"),
+    ("TypeId::apply_type_argument_k", _NZ + "<impl zydeco_statics::syntax::TypeId>::apply_type_argument_k", "seqwhole"),
+    ("TypeId::normalize_apps", _NZ + "<impl zydeco_statics::syntax::TypeId>::normalize_apps", "seqwhole"),
 ])
 
 
@@ -470,8 +507,8 @@ def compute(facts, fname):
             t = extract_seq(facts, fn, spec)
         elif mode == "seqwhole":
             t = extract_seq_whole(facts, fn, spec)
-        elif mode == "armexpr":
-            t = extract_armexpr(facts, fn)
+        elif mode == "armexpr" or mode.startswith("armexpr:"):
+            t = extract_armexpr(facts, fn, mode.split(":", 1)[1] if ":" in mode else None)
         elif mode == "bodyexpr":
             h = facts.hir(fn)
             if h is None:
@@ -518,7 +555,7 @@ class Seq:
         self.out = []
 
     def run(self, node, env):
-        self.expr(node, env)
+        self.expr(node, env, tail=bool(self.spec.get("values")))
         return self.out
 
     def assigned_locals(self, node):
@@ -558,7 +595,8 @@ class Seq:
         e.carried = dict(getattr(env, "carried", {}))
         return e
 
-    def expr(self, n, env):
+    def expr(self, n, env, tail=False):
+        """tail: n is in result position of the function / closure body (spec "values"): the value of each leaf is an event."""
         if not isinstance(n, dict):
             return
         k = H.kind(n)
@@ -566,7 +604,16 @@ class Seq:
             for st in n.get("stmts", []):
                 self.stmt(st, env)
             if n.get("expr") is not None:
-                self.expr(n["expr"], env)
+                self.expr(n["expr"], env, tail)
+            return
+        if tail and k in ("AddrOf", "Use", "Type", "DropTemps"):
+            self.expr(H.peel(n), env, tail) if H.peel(n) is not n else None
+            if H.peel(n) is not n:
+                return
+        if tail and not (k in ("If", "Loop") or (k == "Match" and not H.is_try(n) and not H.is_for(n))):
+            self.expr(n, env, False)
+            if k not in ("Ret", "Break", "Continue") and not n.get("never"):
+                self.out.append("value %s" % canon(n, env))
             return
         if k == "Match" and H.is_for(n):
             pat, it, body = H.for_parts(n)
@@ -580,6 +627,23 @@ class Seq:
             if pat is not None:
                 self.bind(pat, "(each %s)" % canon(it, env), e2)
             self.out.append("for each %s {" % canon(it, env))
+            if body is not None:
+                self.expr(body, e2)
+            self.out.append("}")
+            for l in carried:
+                if l in env.names:
+                    env.names[l] = "loop(%s)" % env.names[l]
+            return
+        if k == "Loop":
+            # `loop` / `while` / `while let`: locals assigned in the body are carried round the loop
+            body = n.get("body")
+            e2 = self.copy(env)
+            carried = self.assigned_locals(body) if body is not None else set()
+            for l in carried:
+                if l in e2.names:
+                    e2.names[l] = "loop(%s)" % e2.names[l]
+                    e2.carried[l] = e2.names[l]
+            self.out.append("loop {")
             if body is not None:
                 self.expr(body, e2)
             self.out.append("}")
@@ -603,23 +667,29 @@ class Seq:
                     self.out.append("| %s =>" % A.pat_shape(a["pat"]))
                 if a.get("guard") is not None:
                     self.expr(a["guard"], e2)
-                self.expr(a["body"], e2)
+                self.expr(a["body"], e2, tail)
             if self.spec.get("branch_matches"):
                 self.out.append("}")
             return
         if k == "If":
-            self.expr(n["c"], env)
-            c = H.peel(n["c"])
             e2 = self.copy(env)
-            if H.kind(c) == "LetExpr":
-                self.bind(c["pat"], canon(c["init"], env), e2)
+            if A.let_chain(n["c"]):
+                # links of an `&&` chain are evaluated left to right, each seeing the bindings of the earlier ones
+                for c in A.conjuncts(n["c"]):
+                    if H.kind(c) == "LetExpr":
+                        self.expr(c["init"], e2)
+                        self.bind(c["pat"], canon(c["init"], e2), e2)
+                    else:
+                        self.expr(c, e2)
+            else:
+                self.expr(n["c"], env)
             if self.spec.get("branch_ifs"):
-                self.out.append("if %s {" % canon(n["c"], env))
-            self.expr(n["t"], e2)
+                self.out.append("if %s {" % canon(n["c"], e2))
+            self.expr(n["t"], e2, tail)
             if n.get("e") is not None:
                 if self.spec.get("branch_ifs"):
                     self.out.append("} else {")
-                self.expr(n["e"], self.copy(env))
+                self.expr(n["e"], self.copy(env), tail)
             if self.spec.get("branch_ifs"):
                 self.out.append("}")
             return
@@ -641,7 +711,7 @@ class Seq:
                     b = base if i == idx else "$c%d.%d" % (d, i)
                     for l, pth in A.pat_paths(p).items():
                         e2.names[l] = "%s/%s" % (b, pth) if pth else b
-                self.expr(clo["body"], e2)
+                self.expr(clo["body"], e2, bool(self.spec.get("values")))
             self.emit_call(n, env)
             return
         if k == "Closure":
